@@ -10,7 +10,8 @@ and judged by the checker of coq/Check/C20Check.v on the implementation's own tr
 
 Connect in progress (run_connect_part, notes/C04.md): the same causes beside a CONNECT for another
 namespace of the same transport whose coroutine connect handler is suspended (accepting or
-refusing, always_connect off / on); driver drivers/sched_conn.py, model coq/Conc/ConnConc.v,
+refusing, always_connect off / on), or a CONNECT of another transport to the SAME namespace as the
+established session, registered at any moment (x_plan_same_ns); driver drivers/sched_conn.py, model coq/Conc/ConnConc.v,
 checker coq/Check/C04ConnCheck.v (established sessions: C20Check's clauses unchanged; the new
 session, the connect handler count and the answer to the client in addition).
 
@@ -107,6 +108,9 @@ X_CLAUSES = c20.CLAUSES + [
 ]
 # FULL plus a second transport on the namespace that is being connected to (the namespace table survives)
 FULLC = FULL + [('connect', 'e1', '/c')]
+# a further live transport (on "/b" only) from which a CONNECT to the namespace of the established session S0 can come
+LONET = LONE + [('connect', 'e1', '/b')]
+FULLT = FULL + [('connect', 'e2', '/b')]
 X_CAUSE = dict(c20.CAUSE)
 
 
@@ -212,6 +216,7 @@ def x_plan(thorough):
     out.append(('conn accept(e0)+accept(e1) full api+loss',
                 x_scenario(FULL, ('api', 'loss'), [conn + ('accept',), ('e1', '/c', 'accept')]),
                 ('bounded', 2, 100) if thorough else ('bounded', 1, 12)))
+    out += x_plan_same_ns(thorough)
     if thorough:
         for outc in ('accept', 'false'):
             for names in itertools.combinations_with_replacement(['api', 'cli', 'loss', 'ocli', 'capi'], 3):
@@ -221,11 +226,42 @@ def x_plan(thorough):
     return out
 
 
+def x_plan_same_ns(thorough):
+    """A CONNECT of ANOTHER transport to the SAME namespace as the established session S0 ("/"), beside the terminating
+    causes of S0.  'free' scenarios have no fixed prefix: the request may be registered at any moment, before, between
+    or after the blocks of the terminating causes (the other transport is not lost, so its environ is there), which
+    also covers a connect handler that does not suspend (its blocks then run back to back: a subset of the schedules
+    explored); the others start with the connect in progress as everywhere above."""
+    out = []
+    for ac in (False, True):
+        for outc in ('accept', 'false'):
+            tag = 'same-ns %s%s' % (outc, '+always_connect' if ac else '')
+            lone = [(('cli', 'loss'), 'all'), (('api', 'cli'), 'all'), (('api', 'loss'), 'all' if thorough else ('bounded', 2, 20))]
+            if thorough:
+                lone += [(('api', 'api'), 'all'), (('cli', 'cli'), 'all'), (('api', 'cli', 'loss'), ('bounded', 3, 300))]
+            for names, how in lone:
+                sc = x_scenario(LONET, names, [('e1', '/', outc)], ac)
+                sc['free_start'] = True
+                out.append(('conn %s free lone %s' % (tag, '+'.join(names)), sc, how))
+            full = [(('cli', 'loss'), 'all' if (thorough or not ac) else ('bounded', 1, 12)),
+                    (('api', 'cli'), 'all' if thorough else ('bounded', 1, 12)),
+                    (('api', 'loss'), 'all' if thorough else ('bounded', 1, 12))]
+            if thorough:
+                full += [(('loss', 'ocli'), 'all'), (('cli', 'oapi'), 'all')]
+            for names, how in full:
+                out.append(('conn %s full %s' % (tag, '+'.join(names)),
+                            x_scenario(FULLT, names, [('e2', '/', outc)], ac), how))
+    sc = x_scenario(FULLT, ('cli', 'loss'), [('e2', '/', 'false')], raising=['S0'])
+    sc['free_start'] = True
+    out.append(('conn same-ns false free full cli+loss raising', sc, ('bounded', 2, 40) if thorough else ('bounded', 1, 12)))
+    return out
+
+
 def _x_explore_one(task):
     name, sc, how, seed, cap = task
     from drivers import sched_conn as X
     rng = common.Rng(seed).sub('C04conn/%s' % name)
-    prefix = X.prefix_of(sc)
+    prefix = [] if sc.get('free_start') else X.prefix_of(sc)
     out = []
 
     def add(r, kind):
